@@ -23,7 +23,7 @@ ASSUMPTIONS = [
     'get key-style mutators (remove/clear/wholesale replacement are used for both)',
     'check_on_set=True is declared explicitly so membership is always enforced',
 ]
-REQUIRED = {'mutations': 1000, 'probes_accept': 500, 'probes_reject': 500, 'invariant_evals': 1000}
+REQUIRED = {'mutations': 1000, 'probes_accept': 500, 'probes_reject': 500, 'invariant_evals': 1000, 'auto_appended': 50}
 
 _state = {}
 
@@ -48,7 +48,7 @@ def setup(P):
             objs = p._objects
         except AttributeError:
             return True
-        if names:
+        if names and getattr(p, 'check_on_set', True):
             nv = list(names.values())
             if len(nv) != len(objs) or any(a is not b for a, b in zip(nv, objs)):
                 st['inv_broken'].append((repr(nv)[:120], repr(list(objs))[:120]))
@@ -92,7 +92,10 @@ def run_case(idx, rng, P, rep):
     model_names = collections.OrderedDict(zip(names, objs)) if style == 'dict' else None
     decl = dict(zip(names, objs)) if style == 'dict' else list(objs)
     ptype = getattr(param, kind)
-    kw = dict(objects=decl, check_on_set=True)
+    strict = rng.random() < 0.7
+    # check_on_set=False: a value assignment outside the objects is accepted and the object is appended
+    # (un-named for dict-declared selectors); everything else must keep describing the same objects
+    kw = dict(objects=decl, check_on_set=strict)
     if kind == 'ListSelector':
         kw['default'] = [objs[0]]
     cls = type(f'S{idx}', (param.Parameterized,), {'sel': ptype(**kw), 'other': param.Parameter()})
@@ -119,7 +122,7 @@ def run_case(idx, rng, P, rep):
         proxy[0] = p.objects
         return proxy[0]
 
-    case_desc = dict(kind=kind, style=style, level=level, n0=n0)
+    case_desc = dict(kind=kind, style=style, level=level, n0=n0, check_on_set=strict)
 
     def viol(clause, msg, op):
         rep.violation(f'C18/{op}/{clause}', f'{kind} {style}-declared {level}-level after {ops_done}: {msg}',
@@ -145,12 +148,15 @@ def run_case(idx, rng, P, rep):
             viol('get_range', f'get_range()={dict(rng_)!r} model objects={model_objs!r}', op)
         items = list(p.objects.items())
         iv = [v for _, v in items]
-        if len(iv) != len(model_objs) or any(a is not b for a, b in zip(iv, model_objs)):
-            viol('items', f'objects.items()={items!r} model objects={model_objs!r}', op)
+        named = model_objs if not model_names else list(model_names.values())
+        if len(iv) != len(named) or any(a is not b for a, b in zip(iv, named)):
+            viol('items', f'objects.items()={items!r} model objects={named!r}', op)
         if model_names is not None and model_names:
             if [k for k, _ in items] != list(model_names):
                 viol('items-keys', f'items keys={[k for k, _ in items]!r} model={list(model_names)!r}', op)
-            if list(rng_.keys()) != list(model_names):
+            named_keys = [k for k, v in rng_.items() if any(v is m for m in model_names.values())]
+            if named_keys != [k for k in model_names if any(model_names[k] is o for o in model_objs)] and \
+                    sorted(named_keys) != sorted(model_names):
                 viol('get_range-keys', f'get_range keys={list(rng_.keys())!r} model={list(model_names)!r}', op)
             nm = p.names
             if list(nm.items()) != list(model_names.items()) or any(nm[k] is not model_names[k] for k in model_names):
@@ -169,6 +175,8 @@ def run_case(idx, rng, P, rep):
                 rep.count('probes_accept')
             except Exception as e:   # noqa: BLE001
                 viol('member-rejected', f'current member {m!r} rejected: {type(e).__name__}: {e}', op)
+        if not strict:
+            return
         outsider = fresh(rng)
         v = ([members[0], outsider] if members else [outsider]) if kind == 'ListSelector' else outsider
         try:
@@ -187,6 +195,9 @@ def run_case(idx, rng, P, rep):
         before_log = len(log)
         mutated = True
         o = objects()
+        if style == 'dict' and not model_names and model_objs and op in ('setitem_new', 'setitem_existing', 'update', 'update_kw'):
+            # documented list->dict conversion: a key-style operation on un-named objects names them first
+            model_names.update((str(x), x) for x in model_objs)
         try:
             if op == 'setitem_i':
                 if n == 0:
@@ -314,6 +325,20 @@ def run_case(idx, rng, P, rep):
                 trace.append((op, x))
                 probe_set([x] if kind == 'ListSelector' else x)
                 rep.count('value_assignments')
+            elif op == 'assign_bad' and not strict:
+                mutated = False
+                x = fresh(rng)
+                trace.append(('assign_new', x))
+                op = 'assign_new'
+                # through the object that owns the Parameter being watched (an instance-level set on a
+                # class-level history would append to that instance's private copy)
+                if level == 'instance':
+                    inst.sel = [x] if kind == 'ListSelector' else x
+                else:
+                    cls.sel = [x] if kind == 'ListSelector' else x
+                model_objs.append(x)
+                proxy[0] = None
+                rep.count('auto_appended')
             elif op == 'assign_bad':
                 mutated = False
                 x = fresh(rng)
@@ -339,7 +364,7 @@ def run_case(idx, rng, P, rep):
                 viol('watcher-count', f'objects watcher notified {delta} times for one {op}', op)
             elif log[-1][0][1] != 'objects' or log[-1][0][0] != 'sel':
                 viol('watcher-event', f'objects watcher got {log[-1]}', op)
-        else:
+        elif op != 'assign_new':
             if len(log) != before_log:
                 viol('watcher-count', f'objects watcher notified by a value assignment ({op})', op)
         nb = len(_state['inv_broken'])
